@@ -742,6 +742,9 @@ func (sf *SpecFile) ParseSpecText(file, text string) error {
 				return fmt.Errorf("%s:%d: %v", file, rc.line, err)
 			}
 			pr.Body = e
+			if _, dup := sf.Preds[pr.Name]; dup {
+				return fmt.Errorf("%s:%d: predicate %s is defined twice in this package's contract files", file, rc.line, pr.Name)
+			}
 			sf.Preds[pr.Name] = pr
 		case "ufunc":
 			// ufunc name(a T, b U) R
